@@ -11,7 +11,9 @@ import (
 	"io"
 	"net/http"
 	"os"
+	"runtime"
 	"sort"
+	"sync"
 	"sync/atomic"
 )
 
@@ -280,4 +282,89 @@ func Send[T any](site int, ch chan<- T, v T) {
 	tok := BlockBegin(site)
 	ch <- v
 	BlockEnd(tok)
+}
+
+// tryLocker is what sync.Mutex and sync.RWMutex offer.
+type tryLocker interface {
+	Lock()
+	TryLock() bool
+}
+
+// MutexLock wraps m.Lock() for *sync.Mutex / *sync.RWMutex. Under the
+// simulator the token holder never blocks inside Lock: a lock that is taken
+// (only possible when its holder waits, token-less, inside a bracketed
+// blocking operation) is retried after giving the token to somebody else.
+func MutexLock(site int, m tryLocker) {
+	h := H
+	if h == nil || h.Critical == nil || h.BlockBegin == nil {
+		m.Lock()
+		if h != nil && h.Critical != nil {
+			h.Critical(+1)
+		}
+		return
+	}
+	for !m.TryLock() {
+		tok := h.BlockBegin(site)
+		runtime.Gosched()
+		if tok == nil {
+			m.Lock()
+			break
+		}
+		h.BlockEnd(tok)
+	}
+	h.Critical(+1)
+}
+
+// MutexRLock wraps rw.RLock().
+func MutexRLock(site int, m *sync.RWMutex) {
+	h := H
+	if h == nil || h.Critical == nil || h.BlockBegin == nil {
+		m.RLock()
+		if h != nil && h.Critical != nil {
+			h.Critical(+1)
+		}
+		return
+	}
+	for !m.TryRLock() {
+		tok := h.BlockBegin(site)
+		runtime.Gosched()
+		if tok == nil {
+			m.RLock()
+			break
+		}
+		h.BlockEnd(tok)
+	}
+	h.Critical(+1)
+}
+
+// CondWait wraps c.Wait(). Wait returns holding c.L; the lock is dropped while
+// the task queues for the token (it must not hold a lock while token-less:
+// the token holder could need it) and taken again afterwards. Callers of
+// Cond.Wait re-check their condition in a loop, as the sync package requires.
+func CondWait(site int, c *sync.Cond) {
+	h := H
+	if h == nil || h.BlockBegin == nil {
+		c.Wait()
+		return
+	}
+	tok := h.BlockBegin(site)
+	c.Wait()
+	if tok == nil {
+		return
+	}
+	c.L.Unlock()
+	h.BlockEnd(tok)
+	if tl, ok := c.L.(tryLocker); ok {
+		for !tl.TryLock() {
+			t2 := h.BlockBegin(site)
+			runtime.Gosched()
+			if t2 == nil {
+				c.L.Lock()
+				return
+			}
+			h.BlockEnd(t2)
+		}
+		return
+	}
+	c.L.Lock()
 }
